@@ -626,4 +626,400 @@ theorem run_total : ∀ (f : Nat) (p : Player), Inv p → Good p → mu (live p)
       obtain ⟨out', hrun⟩ := ih p' c.inv hg' hmu'
       exact ⟨o :: out', by rw [hrun]; rfl⟩
 
+/-! ### `player_init` -/
+
+/-- a stream as `stream_load` (+ `stream_clkoff_set`) leaves it -/
+def Loaded (s : Stream) : Prop :=
+  s.cur = none ∧ s.active = !s.rest.isEmpty ∧ s.lastclock = 0 ∧ s.unsorted = false
+
+/-- `stream_allow_unsorted` when the player runs in unsorted mode -/
+def flag (u : Bool) (s : Stream) : Stream := if u then { s with unsorted := true } else s
+
+/-- the stream positioned on its first event (`none` for a stream without events) -/
+def start (u : Bool) (s : Stream) : Option Stream := adv (flag u s)
+
+/-- the stream as the first `step_stream` leaves it in the trace list -/
+def stepped (u : Bool) (s : Stream) : Stream := (start u s).getD (flag u s)
+
+theorem flag_loaded (u : Bool) (s : Stream) (h : Loaded s) :
+    (flag u s).cur = none ∧ (flag u s).active = !(flag u s).rest.isEmpty ∧ (flag u s).lastclock = 0 ∧
+    (flag u s).unsorted = u ∧ (flag u s).rest = s.rest ∧ (flag u s).offset = s.offset ∧
+    (flag u s).relpath = s.relpath := by
+  obtain ⟨h1, h2, h3, h4⟩ := h
+  cases u <;> simp [flag, h1, h2, h3, h4]
+
+theorem stepStream_first (p : Player) (s : Stream) (hi : Inv p)
+    (hc : s.cur = none) (ha : s.active = !s.rest.isEmpty) (hl : s.lastclock = 0) :
+    (s.rest = [] ∧ adv s = none ∧ stepStream p s = some (p, s, 1)) ∨
+    (∃ e r, s.rest = e :: r ∧
+      ((s.unsorted = false ∧ e.clock + s.offset < 0 ∧ stepStream p s = none) ∨
+       (¬ (s.unsorted = false ∧ e.clock + s.offset < 0) ∧ ∃ s' h', adv s = some s' ∧
+          stepStream p s = some ({ p with heap := h', nprocessed := p.nprocessed + 1 }, s', 0) ∧
+          Shape h'.root h'.size ∧ Ordered skey h'.root ∧
+          h'.root.toList.Perm (s' :: p.heap.root.toList)))) := by
+  unfold stepStream
+  cases hr : s.rest with
+  | nil =>
+    left
+    rw [hr] at ha
+    refine ⟨rfl, by unfold adv; rw [hr], ?_⟩
+    simp [ha]
+  | cons e r =>
+    right
+    rw [hr] at ha
+    simp only [List.isEmpty_cons, Bool.not_false] at ha
+    refine ⟨e, r, rfl, ?_⟩
+    simp only [ha, Bool.not_true, Bool.false_eq_true, if_false]
+    have hss : streamStep s =
+        if (!s.unsorted && decide (s.evclock e < s.lastclock)) = true then StepRes.err
+        else StepRes.ok { s with cur := some e, rest := r, lastclock := s.evclock e } := by
+      unfold streamStep
+      simp only [ha, Bool.not_true, Bool.false_eq_true, if_false, hc, hr]
+    have hadv : adv s = some { s with cur := some e, rest := r, lastclock := s.evclock e } := by
+      unfold adv; rw [hr]; rfl
+    by_cases hu : s.unsorted = false ∧ e.clock + s.offset < 0
+    · left
+      refine ⟨hu.1, hu.2, ?_⟩
+      rw [hss, if_pos]
+      simp only [Bool.and_eq_true, Bool.not_eq_true', decide_eq_true_eq, hu.1, hl, Stream.evclock, true_and]
+      exact hu.2
+    · right
+      refine ⟨hu, ?_⟩
+      have hne : ¬ (!s.unsorted && decide (s.evclock e < s.lastclock)) = true := by
+        intro hh
+        simp only [Bool.and_eq_true, Bool.not_eq_true'] at hh
+        have := of_decide_eq_true hh.2
+        rw [hl] at this
+        exact hu ⟨hh.1, this⟩
+      rw [hss, if_neg hne]
+      obtain ⟨h', hins, _, hs', ho', hp'⟩ := insert_inv sgt skey sgt_key p.heap
+        { s with cur := some e, rest := r, lastclock := s.evclock e } hi.shape hi.ordered
+      simp only [hins]
+      exact ⟨_, h', hadv, rfl, hs', ho', hp'⟩
+
+theorem initLoop_cases (u : Bool) : ∀ (ss : List Stream) (p : Player), Inv p → p.stream = none →
+    (∀ s ∈ ss, Loaded s) →
+    (initLoop u p ss = none ∧ u = false ∧
+      ∃ s ∈ ss, ∃ e r, s.rest = e :: r ∧ e.clock + s.offset < 0) ∨
+    (∃ p', initLoop u p ss = some (p', ss.map (stepped u)) ∧ Inv p' ∧ p'.stream = none ∧
+      p'.heap.root.toList.Perm (ss.filterMap (start u) ++ p.heap.root.toList) ∧
+      p'.firstEvent = p.firstEvent ∧ p'.unsorted = p.unsorted) := by
+  intro ss
+  induction ss with
+  | nil =>
+    intro p hi hst _
+    right
+    exact ⟨p, rfl, hi, hst, List.Perm.refl _, rfl, rfl⟩
+  | cons s ss ih =>
+    intro p hi hst hl
+    have hls := hl s (by simp)
+    obtain ⟨f1, f2, f3, f4, f5, f6, f7⟩ := flag_loaded u s hls
+    have hl' : ∀ x ∈ ss, Loaded x := fun x hx => hl x (List.mem_cons_of_mem _ hx)
+    unfold initLoop
+    simp only
+    have efl : (if u = true then { s with unsorted := true } else s) = flag u s := rfl
+    rw [efl]
+    rcases stepStream_first p (flag u s) hi f1 f2 f3 with ⟨hr, ha, he⟩ |
+      ⟨e, r, hr, ⟨hu, hlt, he⟩ | ⟨_, s', h', ha, he, hs', ho', hp'⟩⟩
+    · rw [he]
+      simp only
+      have hstart : start u s = none := ha
+      have hstep : stepped u s = flag u s := by unfold stepped; rw [hstart]; rfl
+      rcases ih p hi hst hl' with ⟨h1, h2, x, hx, h3⟩ | ⟨p', h1, h2, h3, h4, h5, h6⟩
+      · left; rw [h1]; exact ⟨rfl, h2, x, List.mem_cons_of_mem _ hx, h3⟩
+      · right
+        rw [h1]
+        refine ⟨p', by simp [hstep], h2, h3, ?_, h5, h6⟩
+        simpa [List.filterMap_cons, hstart] using h4
+    · left
+      rw [he]
+      rw [f4] at hu
+      rw [f5] at hr
+      rw [f6] at hlt
+      exact ⟨rfl, hu, s, by simp, e, r, hr, hlt⟩
+    · rw [he]
+      simp only
+      have hstart : start u s = some s' := ha
+      have hstep : stepped u s = s' := by unfold stepped; rw [hstart]; rfl
+      have hact : (flag u s).active = true := by rw [f2, hr]; rfl
+      have hw : WfA s' := (adv_wfA (flag u s) s' hact ha).1
+      have hi2 : Inv { p with heap := h', nprocessed := p.nprocessed + 1 } := by
+        refine ⟨hs', ho', fun x hx => ?_, fun x hx => by rw [hst] at hx; cases hx⟩
+        rcases List.mem_cons.1 (hp'.subset hx) with rfl | hx
+        · exact hw
+        · exact hi.heapWf x hx
+      rcases ih { p with heap := h', nprocessed := p.nprocessed + 1 } hi2 hst hl' with
+        ⟨h1, h2, x, hx, h3⟩ | ⟨p', h1, h2, h3, h4, h5, h6⟩
+      · left; rw [h1]; exact ⟨rfl, h2, x, List.mem_cons_of_mem _ hx, h3⟩
+      · right
+        rw [h1]
+        refine ⟨p', by simp [hstep], h2, h3, ?_, h5, h6⟩
+        simp only [List.filterMap_cons, hstart]
+        refine h4.trans ?_
+        refine (List.Perm.append_left _ hp').trans ?_
+        exact List.perm_middle
+
+theorem inv_init0 (u : Bool) : Inv (Player.init0 u) :=
+  ⟨shape_empty, trivial, (fun s hs => by cases hs), (fun s hs => by cases hs)⟩
+
+theorem playerInit_cases (u : Bool) (ss : List Stream) (hl : ∀ s ∈ ss, Loaded s) :
+    (playerInit ss u = none ∧ u = false ∧
+      ((∃ s ∈ ss, ∃ e r, s.rest = e :: r ∧ e.clock + s.offset < 0) ∨
+        clockGate (ss.map (stepped false)) = false)) ∨
+    (∃ p, playerInit ss u = some p ∧ Inv p ∧ p.stream = none ∧
+      p.heap.root.toList.Perm (ss.filterMap (start u)) ∧ p.firstEvent = true ∧ p.unsorted = u) := by
+  unfold playerInit
+  rcases initLoop_cases u ss (Player.init0 u) (inv_init0 u) rfl hl with
+    ⟨h1, h2, h3⟩ | ⟨p', h1, h2, h3, h4, h5, h6⟩
+  · left; rw [h1]; exact ⟨rfl, h2, Or.inl h3⟩
+  · rw [h1]
+    simp only
+    by_cases hg : (!u && !clockGate (ss.map (stepped u))) = true
+    · left
+      rw [if_pos hg]
+      simp only [Bool.and_eq_true, Bool.not_eq_true'] at hg
+      refine ⟨rfl, hg.1, Or.inr ?_⟩
+      have := hg.2
+      rw [hg.1] at this; exact this
+    · right
+      rw [if_neg hg]
+      refine ⟨p', rfl, h2, h3, ?_, h5, h6⟩
+      simpa [Player.init0, Heap.empty, Tree.toList] using h4
+
+/-! ### From `replay` to the abstract run over the loaded streams -/
+
+theorem filterMap_flatMap {β γ δ : Type} (f : β → Option γ) (g : γ → List δ) : ∀ (l : List β),
+    (l.filterMap f).flatMap g = l.flatMap fun x => (f x).toList.flatMap g := by
+  intro l
+  induction l with
+  | nil => rfl
+  | cons a l ih =>
+    rw [List.filterMap_cons, List.flatMap_cons]
+    cases h : f a with
+    | none => simp [ih]
+    | some b => simp [ih]
+
+theorem start_pendT (u : Bool) (s : Stream) (h : Loaded s) :
+    (start u s).toList.flatMap pendT = tagS s s.rest := by
+  obtain ⟨_, _, _, _, f5, f6, f7⟩ := flag_loaded u s h
+  unfold start
+  rw [adv_pendT, f5]
+  unfold tagS
+  rw [f6, f7]
+
+theorem start_pendS (u : Bool) (s : Stream) (h : Loaded s) :
+    (start u s).toList.flatMap pendS = s.rest := by
+  obtain ⟨_, _, _, _, f5, _, _⟩ := flag_loaded u s h
+  unfold start
+  rw [adv_pendS, f5]
+
+theorem start_relpath (u : Bool) (s s' : Stream) (h : Loaded s) (hs : start u s = some s') :
+    s'.relpath = s.relpath ∧ s'.offset = s.offset := by
+  obtain ⟨_, _, _, _, _, f6, f7⟩ := flag_loaded u s h
+  have := adv_relpath (flag u s) s' hs
+  rw [f6, f7] at this; exact this
+
+theorem starts_pendT (u : Bool) (ss : List Stream) (hl : ∀ s ∈ ss, Loaded s) :
+    (ss.filterMap (start u)).flatMap pendT = ss.flatMap fun s => tagS s s.rest := by
+  rw [filterMap_flatMap]
+  induction ss with
+  | nil => rfl
+  | cons a l ih =>
+    simp only [List.flatMap_cons]
+    rw [start_pendT u a (hl a (by simp)), ih (fun x hx => hl x (List.mem_cons_of_mem _ hx))]
+
+theorem starts_mu (u : Bool) (ss : List Stream) (hl : ∀ s ∈ ss, Loaded s) :
+    mu (ss.filterMap (start u)) = totalEvents ss := by
+  unfold mu totalEvents
+  rw [filterMap_flatMap]
+  induction ss with
+  | nil => rfl
+  | cons a l ih =>
+    simp only [List.flatMap_cons, List.length_append, List.map_cons, List.sum_cons]
+    rw [start_pendS u a (hl a (by simp)), ih (fun x hx => hl x (List.mem_cons_of_mem _ hx))]
+
+theorem starts_pendR (u : Bool) (r : Str) (ss : List Stream) (hl : ∀ s ∈ ss, Loaded s) :
+    pendR r (ss.filterMap (start u)) = (ss.filter fun s => s.relpath == r).flatMap (·.rest) := by
+  unfold pendR
+  induction ss with
+  | nil => rfl
+  | cons a l ih =>
+    have iha := ih (fun x hx => hl x (List.mem_cons_of_mem _ hx))
+    have hla := hl a (by simp)
+    rw [List.filterMap_cons]
+    cases hs : start u a with
+    | none =>
+      have h0 := start_pendS u a hla
+      rw [hs] at h0
+      simp only [Option.toList_none, List.flatMap_nil] at h0
+      simp only [iha, List.filter_cons]
+      split
+      · simp [← h0]
+      · rfl
+    | some a' =>
+      have h0 := start_pendS u a hla
+      rw [hs] at h0
+      simp only [Option.toList_some, List.flatMap_cons, List.flatMap_nil, List.append_nil] at h0
+      have hr := (start_relpath u a a' hla hs).1
+      simp only [List.filter_cons, hr]
+      split
+      · simp [h0, iha]
+      · exact iha
+
+theorem starts_relpaths_sublist (u : Bool) (ss : List Stream) (hl : ∀ s ∈ ss, Loaded s) :
+    ((ss.filterMap (start u)).map (·.relpath)).Sublist (ss.map (·.relpath)) := by
+  induction ss with
+  | nil => exact List.Sublist.slnil
+  | cons a l ih =>
+    have iha := ih (fun x hx => hl x (List.mem_cons_of_mem _ hx))
+    rw [List.filterMap_cons]
+    cases hs : start u a with
+    | none => exact List.Sublist.cons _ iha
+    | some a' =>
+      simp only [List.map_cons, (start_relpath u a a' (hl a (by simp)) hs).1]
+      exact List.Sublist.cons_cons _ iha
+
+/-- corrected clocks of the stream never decrease -/
+def SortedRest (s : Stream) : Prop :=
+  s.rest.Pairwise fun a b => a.clock + s.offset ≤ b.clock + s.offset
+
+theorem start_sorted (u : Bool) (s s' : Stream) (h : Loaded s) (hs : SortedRest s)
+    (hst : start u s = some s') : SortedS s' := by
+  obtain ⟨_, _, _, _, f5, f6, _⟩ := flag_loaded u s h
+  unfold start adv at hst
+  unfold SortedRest at hs
+  rw [f5] at hst
+  cases hr : s.rest with
+  | nil => rw [hr] at hst; cases hst
+  | cons e r =>
+    rw [hr] at hst hs
+    simp only [Option.some.injEq] at hst
+    rw [List.pairwise_cons] at hs
+    rw [← hst]
+    simp only [SortedS, f6]
+    exact ⟨fun x hx => hs.1 x hx, hs.2⟩
+
+theorem replay_cases (u : Bool) (ss : List Stream) (hl : ∀ s ∈ ss, Loaded s) :
+    (replay u ss = none ∧ playerInit ss u = none) ∨
+    (∃ p, playerInit ss u = some p ∧ replay u ss = run (totalEvents ss + 1) p ∧ Inv p ∧
+      p.stream = none ∧ (live p).Perm (ss.filterMap (start u)) ∧ p.firstEvent = true ∧
+      p.unsorted = u) := by
+  unfold replay
+  rcases playerInit_cases u ss hl with ⟨h1, _⟩ | ⟨p, h1, h2, h3, h4, h5, h6⟩
+  · left; rw [h1]; exact ⟨rfl, rfl⟩
+  · right
+    rw [h1]
+    refine ⟨p, rfl, rfl, h2, h3, ?_, h5, h6⟩
+    unfold live; rw [h3]; exact h4
+
+theorem replay_absRun (u : Bool) (ss : List Stream) (out : List Out) (hl : ∀ s ∈ ss, Loaded s)
+    (h : replay u ss = some out) : AbsRun (ss.filterMap (start u)) out := by
+  rcases replay_cases u ss hl with ⟨h1, _⟩ | ⟨p, _, h1, h2, _, h4, _, _⟩
+  · rw [h1] at h; cases h
+  · rw [h1] at h
+    exact absRun_of_perm (run_absRun _ p out h2 h) h4.symm
+
+/-! ### `trace_load`: sorting by relpath removes the enumeration order -/
+
+theorem strLe_total : ∀ (a b : Str), (strLe a b || strLe b a) = true := by
+  intro a
+  induction a with
+  | nil => intro b; simp [strLe]
+  | cons x a ih =>
+    intro b
+    cases b with
+    | nil => simp [strLe]
+    | cons y b =>
+      simp only [strLe]
+      by_cases h1 : x < y
+      · simp [h1]
+      · by_cases h2 : y < x
+        · simp [h1, h2]
+        · simp only [h1, h2, if_false]; exact ih b
+
+theorem strLe_trans : ∀ (a b c : Str), strLe a b = true → strLe b c = true → strLe a c = true := by
+  intro a
+  induction a with
+  | nil => intro b c _ _; simp [strLe]
+  | cons x a ih =>
+    intro b c h1 h2
+    cases b with
+    | nil => simp [strLe] at h1
+    | cons y b =>
+      cases c with
+      | nil => simp [strLe] at h2
+      | cons z c =>
+        simp only [strLe] at h1 h2 ⊢
+        by_cases xy : x < y
+        · by_cases yz : y < z
+          · have : x < z := by omega
+            simp [this]
+          · by_cases zy : z < y
+            · simp [yz, zy] at h2
+            · have : x < z := by omega
+              simp [this]
+        · by_cases yx : y < x
+          · simp [xy, yx] at h1
+          · simp only [xy, yx, if_false] at h1
+            have exy : x = y := by omega
+            subst exy
+            by_cases yz : x < z
+            · simp [yz]
+            · by_cases zy : z < x
+              · simp [yz, zy] at h2
+              · simp only [yz, zy, if_false] at h2 ⊢
+                exact ih b c h1 h2
+
+theorem strLe_antisymm : ∀ (a b : Str), strLe a b = true → strLe b a = true → a = b := by
+  intro a
+  induction a with
+  | nil =>
+    intro b _ h2
+    cases b with
+    | nil => rfl
+    | cons _ _ => simp [strLe] at h2
+  | cons x a ih =>
+    intro b h1 h2
+    cases b with
+    | nil => simp [strLe] at h1
+    | cons y b =>
+      simp only [strLe] at h1 h2
+      by_cases xy : x < y
+      · have : ¬ y < x := by omega
+        simp [xy, this] at h2
+      · by_cases yx : y < x
+        · simp [xy, yx] at h1
+        · simp only [xy, yx, if_false] at h1 h2
+          have exy : x = y := by omega
+          rw [exy, ih b h1 h2]
+
+theorem eq_of_nodup_map {β : Type} (f : β → Str) : ∀ (l : List β), (l.map f).Nodup →
+    ∀ a b, a ∈ l → b ∈ l → f a = f b → a = b := by
+  intro l
+  induction l with
+  | nil => intro _ a b ha; cases ha
+  | cons x l ih =>
+    intro hn a b ha hb hab
+    rw [List.map_cons, List.nodup_cons] at hn
+    rcases List.mem_cons.1 ha with ea | ha' <;> rcases List.mem_cons.1 hb with eb | hb'
+    · rw [ea, eb]
+    · exact absurd (by rw [← ea, hab]; exact List.mem_map_of_mem hb') hn.1
+    · exact absurd (by rw [← eb, ← hab]; exact List.mem_map_of_mem ha') hn.1
+    · exact ih hn.2 a b ha' hb' hab
+
+theorem traceLoad_perm_eq (l1 l2 : List Raw) (hp : l1.Perm l2) (hn : (l1.map (·.relpath)).Nodup) :
+    traceLoad l1 = traceLoad l2 := by
+  unfold traceLoad
+  have tr : ∀ (a b c : Raw), strLe a.relpath b.relpath = true → strLe b.relpath c.relpath = true →
+      strLe a.relpath c.relpath = true := fun a b c => strLe_trans _ _ _
+  have to : ∀ (a b : Raw), (strLe a.relpath b.relpath || strLe b.relpath a.relpath) = true :=
+    fun a b => strLe_total _ _
+  refine List.Perm.eq_of_pairwise (le := fun a b => strLe a.relpath b.relpath = true) ?_
+    (List.pairwise_mergeSort tr to l1) (List.pairwise_mergeSort tr to l2) ?_
+  · intro a b ha hb h1 h2
+    have ha' : a ∈ l1 := List.mem_mergeSort.1 ha
+    have hb' : b ∈ l1 := hp.symm.subset (List.mem_mergeSort.1 hb)
+    exact eq_of_nodup_map (·.relpath) l1 hn a b ha' hb' (strLe_antisymm _ _ h1 h2)
+  · exact (List.mergeSort_perm l1 _).trans (hp.trans (List.mergeSort_perm l2 _).symm)
+
 end Ovni.Player
